@@ -47,6 +47,8 @@ var c05Locals = []string{
 	"a b", "a  b", " lead", "trail ", "a<b", "a>b", "a@b", "a,b", "a;b", "a:b", "a\\b", "a\"b", "a\"b\"c", "\\", "\"", "()", "a(b)c", "[x]", "..", ".lead", "trail.", "a..b",
 	"a> NOTIFY=NEVER ORCPT=rfc822;x <b", "x> BODY=8BITMIME <y", "a> SIZE=1 <b", "a>\" <b", "a b> <c d",
 	"jürgen", "用户", "émile.zola", "δοκιμή",
+	// UTF-8 that is not in a Unicode normalisation form (a local part is opaque: the octets are the mailbox)
+	"ame\u0301lie", "jo\u0308rg", "\u212bke", "\u2126hm", "\ufb01le", "\u212bke doe", "e\u0301",
 }
 
 var c05Domains = []string{"example.com", "sub.example.org", "xn--mller-kva.example", "a.b", "EXAMPLE.NET", "müller.example", "[192.0.2.1]"}
